@@ -2,6 +2,7 @@ package smt
 
 import (
 	"fmt"
+	"math/big"
 	"os"
 	"sort"
 	"time"
@@ -89,55 +90,170 @@ type SweepStats struct {
 	Proved     int
 	Refuted    int
 	Unknown    int
+	Refined    int
 }
 
-// Sweep relates the DAGs below roots node by node ("SAT sweeping"): candidate equalities are proposed by
-// random simulation, visited in topological order and each one is PROVED by the solver on the DAG in
-// which all previously proved equalities have been merged; only proved equalities are merged.  It
-// returns the rebuilt roots.  Simulation never decides anything; a refuted or undecided candidate is
-// simply not merged.
-func Sweep(c *Ctx, s *Solver, roots []*Term, minWidth int) ([]*Term, SweepStats) {
-	var st SweepStats
-	// collect nodes
+// Sweeper relates the nodes of term DAGs to each other and to constants ("SAT sweeping"): candidate
+// equalities are proposed by random simulation (refined by the counterexamples of refuted candidates),
+// visited in topological order and each one is PROVED by the solver -- with no assumption at all, so a
+// proved equality is a validity and is remembered -- on the DAG in which all previously proved
+// equalities have been merged; only proved equalities are merged.  Simulation never decides anything; a
+// refuted or undecided candidate is simply not merged.
+type Sweeper struct {
+	C        *Ctx
+	S        *Solver
+	MinWidth int
+	Memo     map[int]*Term // original node ID -> merged node
+	Stats    SweepStats
+	QueryMs  int  // per-candidate solver budget
+	HintOnly bool // only hint roots (and constants) are class representatives
+	hint     map[int]bool
+	evs      []*Evaluator
+	classes  map[string][]*Term
+	reps     []*Term
+	vars     map[int]*Term
+	bconst   map[int]*Term
+}
+
+func NewSweeper(c *Ctx, s *Solver, minWidth int) *Sweeper {
+	w := &Sweeper{C: c, S: s, MinWidth: minWidth, Memo: map[int]*Term{}, classes: map[string][]*Term{}, vars: map[int]*Term{}, bconst: map[int]*Term{}, QueryMs: 20000}
+	if v := os.Getenv("VERIF_SWEEP_MS"); v != "" {
+		fmt.Sscanf(v, "%d", &w.QueryMs)
+	}
+	for k := 0; k < 96; k++ {
+		w.evs = append(w.evs, NewEvaluator(nil, uint64(k+1)*0x9e3779b97f4a7c15))
+	}
+	// structured vectors: all-zero, all-one, sparse and dense assignments make "is zero" / "carries out"
+	// style flags vary, which uniform vectors never do
+	for k, mode := range []int{3, 4, 1, 1, 1, 1, 1, 1, 2, 2, 2, 2, 2, 2} {
+		ev := NewEvaluator(nil, uint64(k+101)*0x9e3779b97f4a7c15)
+		ev.Mode = mode
+		w.evs = append(w.evs, ev)
+	}
+	return w
+}
+
+func (w *Sweeper) sig(t *Term) (string, bool, *big.Int) {
+	key := fmt.Sprintf("%d:", t.W)
+	var first *big.Int
+	constant := true
+	for _, ev := range w.evs {
+		v := ev.Eval(t)
+		if first == nil {
+			first = v
+		} else if v.Cmp(first) != 0 {
+			constant = false
+		}
+		key += v.Text(16) + ","
+	}
+	return key, constant, first
+}
+
+func (w *Sweeper) refine(m Model) {
+	if len(w.evs) >= 200 || m == nil {
+		return
+	}
+	vars := map[string]*big.Int{}
+	for k, v := range m {
+		vars[k] = v
+	}
+	w.evs = append(w.evs, NewEvaluator(vars, uint64(len(w.evs)+1)*0x9e3779b97f4a7c15))
+	w.Stats.Refined++
+	w.classes = map[string][]*Term{}
+	for _, r := range w.reps {
+		k, _, _ := w.sig(r)
+		w.classes[k] = append(w.classes[k], r)
+	}
+}
+
+func (w *Sweeper) varList() []*Term {
+	out := make([]*Term, 0, len(w.vars))
+	for _, v := range w.vars {
+		out = append(out, v)
+	}
+	sort.Slice(out, func(i, j int) bool { return out[i].ID < out[j].ID })
+	return out
+}
+
+// prove: a == b is valid.  Local lemmas first (everything below a small distance replaced by free
+// variables: a generalisation, hence sound), the full cones last.
+func (w *Sweeper) prove(a, b *Term, ladder []int) Result {
+	c, s := w.C, w.S
+	for _, depth := range ladder {
+		dist := minDist(a, b, depth)
+		memo := map[int]*Term{}
+		an, ar := c.abstractCut(a, dist, depth, memo), c.abstractCut(b, dist, depth, memo)
+		if an == ar {
+			return Unsat
+		}
+		r1, _, e1 := s.Check(c, []*Term{c.Ne(an, ar)}, nil)
+		if e1 == nil && r1 == Unsat {
+			return Unsat
+		}
+	}
+	res, m, err := s.Check(c, []*Term{c.Ne(a, b)}, w.varList())
+	if err != nil {
+		return Unknown
+	}
+	if res == Sat {
+		w.refine(m)
+	}
+	return res
+}
+
+// AddHints sweeps the hint terms and makes them class representatives.
+func (w *Sweeper) AddHints(hints []*Term) {
+	if w.hint == nil {
+		w.hint = map[int]bool{}
+	}
+	var fresh []*Term
+	for _, h := range hints {
+		if !w.hint[h.ID] {
+			w.hint[h.ID] = true
+			fresh = append(fresh, h)
+		}
+	}
+	if len(fresh) > 0 {
+		w.HintOnly = true
+		w.Run(fresh)
+	}
+}
+
+// Run sweeps the DAGs below roots and returns the rebuilt roots.
+func (w *Sweeper) Run(roots []*Term) []*Term {
+	c := w.C
 	seen := map[int]*Term{}
+	var nodes []*Term
 	var walk func(t *Term)
 	walk = func(t *Term) {
 		if _, ok := seen[t.ID]; ok {
 			return
 		}
 		seen[t.ID] = t
+		if _, done := w.Memo[t.ID]; done {
+			return
+		}
 		for _, a := range t.Args {
 			walk(a)
 		}
+		nodes = append(nodes, t)
 	}
 	for _, r := range roots {
 		walk(r)
 	}
-	nodes := make([]*Term, 0, len(seen))
-	for _, t := range seen {
-		nodes = append(nodes, t)
-	}
 	sort.Slice(nodes, func(i, j int) bool { return nodes[i].ID < nodes[j].ID })
-	st.Nodes = len(nodes)
+	w.Stats.Nodes += len(nodes)
 	if sweepLog {
-		fmt.Fprintf(os.Stderr, "SWEEP start nodes=%d\n", len(nodes))
+		fmt.Fprintf(os.Stderr, "SWEEP start new nodes=%d\n", len(nodes))
 	}
-	// simulation signatures
-	const K = 12
-	evs := make([]*Evaluator, K)
-	for k := range evs {
-		evs[k] = NewEvaluator(nil, uint64(k+1)*0x9e3779b97f4a7c15)
-	}
-	sig := func(t *Term) string {
-		key := fmt.Sprintf("%d:", t.W)
-		for _, ev := range evs {
-			key += ev.Eval(t).Text(16) + ","
+	for _, n := range nodes {
+		if n.Op == OpVar {
+			w.vars[n.ID] = n
 		}
-		return key
 	}
-	// rebuild with merging
-	newOf := map[int]*Term{}
-	classes := map[string][]*Term{}
+	old := w.S.TimeoutMs
+	w.S.SetTimeout(w.QueryMs)
+	defer w.S.SetTimeout(old)
 	for _, n := range nodes {
 		var n2 *Term
 		if len(n.Args) == 0 {
@@ -145,72 +261,147 @@ func Sweep(c *Ctx, s *Solver, roots []*Term, minWidth int) ([]*Term, SweepStats)
 		} else {
 			args := make([]*Term, len(n.Args))
 			for i, a := range n.Args {
-				args[i] = newOf[a.ID]
+				args[i] = w.Memo[a.ID]
+			}
+			if n.Op == OpIte {
+				// a Boolean is tested for constancy where it is used as a selector (the maximal
+				// Boolean expression, not each of its sub-terms)
+				args[0] = w.boolConst(args[0])
 			}
 			n2 = c.Make(n, args)
 		}
-		if n.W >= minWidth && n.Op != OpConst && n.Op != OpVar {
-			k := sig(n)
+		leaf := n2.Op == OpConst || n2.Op == OpVar
+		if !leaf && (n.W >= w.MinWidth || (n.W == 0 && w.HintOnly)) {
+			k, constant, val := w.sig(n2)
 			merged := false
-			for ci, r := range classes[k] {
-				if ci >= 4 {
-					break
-				}
-				if r == n2 {
-					merged = true
-					break
-				}
-				st.Candidates++
+			if constant && n.W != 0 {
+				// candidate: the node is a constant
+				w.Stats.Candidates++
 				t0 := time.Now()
-				// local lemmas first: both sides with everything below a small depth replaced by free
-				// variables (sound: generalisation); the full cones only as a last resort
-				res, err := Unknown, error(nil)
-				for _, depth := range []int{1, 2, 3, 5, 8, 12} {
-					dist := minDist(n2, r, depth)
-					memo := map[int]*Term{}
-					an, ar := c.abstractCut(n2, dist, depth, memo), c.abstractCut(r, dist, depth, memo)
-					if an == ar {
-						res = Unsat
-						break
-					}
-					r1, _, e1 := s.Check(c, []*Term{c.Ne(an, ar)}, nil)
-					if e1 == nil && r1 == Unsat {
-						res = Unsat
-						break
-					}
-				}
-				if res != Unsat {
-					res, _, err = s.Check(c, []*Term{c.Ne(n2, r)}, nil)
-				}
-				if sweepLog {
-					fmt.Fprintf(os.Stderr, "SWEEP cand=%d node=%d/%d w=%d op=%d res=%v %.2fs\n", st.Candidates, n.ID, len(nodes), n.W, n.Op, res, time.Since(t0).Seconds())
-				}
-				if err == nil && res == Unsat {
-					st.Proved++
-					n2 = r
-					merged = true
-					break
-				}
-				if err == nil && res == Sat {
-					st.Refuted++
+				var k0 *Term
+				if n2.W == 0 {
+					k0 = c.Bool(val.Sign() != 0)
 				} else {
-					st.Unknown++
+					k0 = c.BigConst(n2.W, val)
+				}
+				res := w.prove(n2, k0, nil)
+				if sweepLog {
+					extra := ""
+					if n.Op == OpExtract {
+						extra = fmt.Sprintf(" of op=%d w=%d [%d:%d] val=%s", n.Args[0].Op, n.Args[0].W, n.Hi, n.Lo, val.Text(16))
+					}
+					fmt.Fprintf(os.Stderr, "SWEEP const%s cand=%d node=%d w=%d op=%d res=%v %.2fs\n", extra, w.Stats.Candidates, n.ID, n.W, n.Op, res, time.Since(t0).Seconds())
+				}
+				switch res {
+				case Unsat:
+					w.Stats.Proved++
+					n2, merged = k0, true
+				case Sat:
+					w.Stats.Refuted++
+					k, _, _ = w.sig(n2)
+				default:
+					w.Stats.Unknown++
 				}
 			}
-			if !merged {
-				classes[k] = append(classes[k], n2)
+			isHint := w.HintOnly && w.hint[n.ID]
+			if !merged && !isHint {
+				tried := 0
+				for _, r := range w.classes[k] {
+					if tried >= 4 {
+						break
+					}
+					if r == n2 {
+						merged = true
+						break
+					}
+					tried++
+					w.Stats.Candidates++
+					t0 := time.Now()
+					ladder := []int{1, 2, 3, 5, 8, 12}
+					if w.HintOnly {
+						ladder = nil // a hint is a different formula of the inputs: only the full cones can agree
+					}
+					res := w.prove(n2, r, ladder)
+					if sweepLog {
+						fmt.Fprintf(os.Stderr, "SWEEP cand=%d node=%d w=%d op=%d res=%v %.2fs\n", w.Stats.Candidates, n.ID, n.W, n.Op, res, time.Since(t0).Seconds())
+					}
+					if res == Unsat {
+						w.Stats.Proved++
+						n2, merged = r, true
+						break
+					}
+					if res == Sat {
+						w.Stats.Refuted++
+						// the class map was rebuilt with the counterexample: look n2 up again
+						k2, _, _ := w.sig(n2)
+						if k2 != k {
+							k = k2
+							break
+						}
+					} else {
+						w.Stats.Unknown++
+					}
+				}
+			}
+			if !merged && n2.Op != OpConst && n2.Op != OpVar && (!w.HintOnly || isHint) {
+				k, _, _ = w.sig(n2)
+				dup := false
+				for _, r := range w.classes[k] {
+					if r == n2 {
+						dup = true
+					}
+				}
+				if !dup {
+					w.classes[k] = append(w.classes[k], n2)
+					w.reps = append(w.reps, n2)
+				}
 			}
 		}
-		newOf[n.ID] = n2
+		w.Memo[n.ID] = n2
 	}
 	if sweepLog {
-		fmt.Fprintf(os.Stderr, "SWEEP done %+v\n", st)
+		fmt.Fprintf(os.Stderr, "SWEEP done %+v\n", w.Stats)
 	}
 	out := make([]*Term, len(roots))
 	for i, r := range roots {
-		out[i] = newOf[r.ID]
+		out[i] = w.Memo[r.ID]
+		if out[i].W == 0 {
+			out[i] = w.boolConst(out[i])
+		}
 	}
-	return out, st
+	return out
+}
+
+// boolConst: b rebuilt as a constant if simulation suggests it and the solver proves it.
+func (w *Sweeper) boolConst(b *Term) *Term {
+	if b.W != 0 || b.Op == OpConst || b.Op == OpVar {
+		return b
+	}
+	if r, ok := w.bconst[b.ID]; ok {
+		return r
+	}
+	out := b
+	_, constant, val := w.sig(b)
+	if constant {
+		w.Stats.Candidates++
+		t0 := time.Now()
+		k0 := w.C.Bool(val.Sign() != 0)
+		res := w.prove(b, k0, nil)
+		if sweepLog {
+			fmt.Fprintf(os.Stderr, "SWEEP bool cand=%d node=%d op=%d res=%v %.2fs\n", w.Stats.Candidates, b.ID, b.Op, res, time.Since(t0).Seconds())
+		}
+		switch res {
+		case Unsat:
+			w.Stats.Proved++
+			out = k0
+		case Sat:
+			w.Stats.Refuted++
+		default:
+			w.Stats.Unknown++
+		}
+	}
+	w.bconst[b.ID] = out
+	return out
 }
 
 // abstractAt rebuilds t with every non-leaf sub-term at distance depth replaced by a free variable
